@@ -81,4 +81,11 @@ def mangledComps (n : Name) : List Name :=
 /-- `ZipFileData::file_name_sanitized`: the kept components folded into a fresh `PathBuf`. -/
 def mangledName (n : Name) : Name := (mangledComps n).foldl push []
 
+/-- `ZipFile::is_dir` / `ZipStreamFileMetadata::is_dir`: the last character of the name is '/' or '\\'
+(`extract` itself tests `ends_with('/')` only: `Spec.Tree.isDirName`). -/
+def isDir (n : Name) : Bool :=
+  match n.getLast? with
+  | some c => c == '/' || c == '\\'
+  | none => false
+
 end ZipVerif.Model.Paths
